@@ -159,6 +159,9 @@ func ExecRun(t *testing.T, spec RunSpec, known *KnownFindings) *RunResult {
 	res.Events = sim.Events()
 	if e != nil {
 		res.Violations = e.viol
+		if e.invalidScenario {
+			res.Violations, res.Outcome = nil, "invalid-scenario"
+		}
 		for h := range e.modelStates {
 			res.ModelStates = append(res.ModelStates, h)
 		}
@@ -407,9 +410,21 @@ func (e *env) modify(s *session, st *Step) {
 			op.ElectionId = uint128(s.elec)
 		}
 		e.opSeq++
-		rec := &opRec{op: op, sess: s.idx, seq: e.opSeq}
+		rec := &opRec{op: op, sess: s.idx, seq: e.opSeq, pos: len(s.opOrder)}
+		s.opOrder = append(s.opOrder, op.GetId())
 		if old := e.allOps[op.GetId()]; old != nil {
 			e.probe("operation id reused")
+			if old.sess == s.idx {
+				// Ids must be unique within a session. The generators guarantee it; a shrinking step that removes a
+				// hand-over can merge two sessions whose ids overlap - such a candidate describes an invalid client,
+				// not the violation being minimised: end the run without a verdict.
+				e.viol = nil
+				e.invalidScenario = true
+				panic(abortRun{})
+			}
+			if os.Getenv("VERIF_DEBUG") != "" {
+				fmt.Fprintf(os.Stderr, "DBG step %d id %d reused: old sess %d state %d, new sess %d\n", e.step, op.GetId(), old.sess, old.state, s.idx)
+			}
 			if old.sess != s.idx && (old.state == opHeld || old.state == opSent) {
 				if e.shadow == nil {
 					e.shadow = map[uint64]*opRec{}
